@@ -203,6 +203,9 @@ func (r Req) do() (barcode.Barcode, error) {
 		return datamatrix.EncodeWithColor(s, cs)
 	case "aztec":
 		data := append([]byte{}, r.S...)
+		if len(r.S) == 0 && r.int(2) == 1 {
+			data = nil // the empty payload as a nil slice
+		}
 		if plain {
 			return aztec.Encode(data, int(r.int(0)), int(r.int(1)))
 		}
